@@ -200,3 +200,13 @@ func SetStepBudget(n uint64, msg string) {}
 
 // Thorough reports whether the check runs in the thorough tier (larger bounds).
 func Thorough() bool { return os.Getenv("VERIF_TIER") == "thorough" }
+
+// MaybeNil returns nil when isNil holds and x otherwise. Under gosym the choice does not fork: comparisons of the result
+// with nil yield the symbolic condition.
+func MaybeNil[T any](x T, isNil bool) T {
+	if isNil {
+		var zero T
+		return zero
+	}
+	return x
+}
